@@ -442,6 +442,7 @@ func lockRegionRange(c *Ctx, p *Prog, lr *ssa.Function, rule string) {
 
 	okRange, nLoops := true, 0
 	detail := ""
+	loopOf := map[ssa.Value][2]*ssa.Parameter{} // counter -> (origin parameter, extent parameter)
 	for _, b := range lr.Blocks {
 		for _, in := range b.Instrs {
 			phi, ok := in.(*ssa.Phi)
@@ -468,14 +469,45 @@ func lockRegionRange(c *Ctx, p *Prog, lr *ssa.Function, rule string) {
 					detail += fmt.Sprintf("loop from %s below %s; ", valName(init), valName(bo.Y))
 					continue
 				}
-				if _, isP2 := derefCell(add.Y).(*ssa.Parameter); !isP2 {
+				if p2, isP2 := derefCell(add.Y).(*ssa.Parameter); !isP2 {
 					okRange = false
 					detail += "extent is not the argument; "
+				} else {
+					loopOf[phi] = [2]*ssa.Parameter{prm, p2}
 				}
 			}
 		}
 	}
-	c.Check(okRange && nLoops == 2, rule, "LockRegion:range", p.pos(lr.Pos()), fmt.Sprintf("%d loops, each from the origin argument to origin+extent %s", nLoops, detail))
+	// each cell call gets (column counter, row counter): the column loop runs over x … x+width, the
+	// row loop over y … y+height (one pair of loops, or one pair per direction)
+	nCalls := 0
+	if len(lr.Params) == 6 {
+		eachInstr(lr, func(in ssa.Instruction) {
+			cc := callCommon(in)
+			if cc == nil || cc.IsInvoke() {
+				return
+			}
+			nm := calleeName(cc)
+			direct := strings.HasSuffix(nm, "CellBuffer).LockCell") || strings.HasSuffix(nm, "CellBuffer).UnlockCell")
+			args := cc.Args
+			if direct {
+				args = args[1:]
+			} else if cc.StaticCallee() != nil || len(args) != 2 {
+				return
+			}
+			if len(args) != 2 {
+				return
+			}
+			nCalls++
+			cx, okx := loopOf[derefCell(args[0])]
+			cy, oky := loopOf[derefCell(args[1])]
+			if !okx || !oky || cx[0] != lr.Params[1] || cx[1] != lr.Params[3] || cy[0] != lr.Params[2] || cy[1] != lr.Params[4] {
+				okRange = false
+				detail += "a cell call at " + p.pos(in.Pos()) + " is not given (column in x…x+width, row in y…y+height); "
+			}
+		})
+	}
+	c.Check(okRange && nLoops >= 2 && nLoops%2 == 0 && nCalls >= 1, rule, "LockRegion:range", p.pos(lr.Pos()), fmt.Sprintf("%d loops, each from the origin argument to origin+extent %s", nLoops, detail))
 
 }
 
